@@ -483,6 +483,8 @@ class Ctx:
 
     # ---- final verdict
     def finish(self):
+        if getattr(self, "dry", False):     # replay mode: the caller inspects self.violations / self.broken itself
+            return 0
         known = [k for k in load_known() if k.get("property") == self.prop and k.get("status") == "known"]
         out_lines = []
         exit_code = 0
